@@ -60,7 +60,7 @@ impl Property for C06 {
     fn run(&self, bytes: &[u8], _tier: Tier) -> CaseOut {
         let prog = decode(bytes);
         let fp = fnv64(format!("{:?}", prog).as_bytes());
-        let r = run_reference(&prog, 200_000);
+        let r = run_reference(&prog, 60_000);
         let mut labels = labels_of(&r);
         let has_sub = !prog.root.submodules.is_empty();
         if has_sub {
